@@ -269,6 +269,20 @@ func drivePrecompile(seed uint64, n int, size int, em *Emitter) {
 		}
 		em.Op("C14,C03", fmt.Sprintf("PB %x %s %s %s %s %s %s", addrB, act, ctxTok, hret, herr, hexU64(1_000_000), hexBytes(input)), impl)
 		em.Count(fmt.Sprintf("bytecode:%x:%s:%s:active=%s", addrB, names[depth-1], class, act))
+		if addrB == 0x66 {
+			// C14 specification (computed from the scenario, independent of the model): a context write is recorded under
+			// the storage address of the frame whose CALL reached the precompile, or not at all
+			att := "ok"
+			for _, l := range hostCtxLog {
+				if f := strings.Fields(l); len(f) >= 2 && f[0] == "set" && (ctxTok == "-" || f[1] != ctxTok) {
+					att = "wrong:recorded_under_" + f[1] + "_expected_" + ctxTok
+				}
+			}
+			if impl == "panic" {
+				att = "panic"
+			}
+			em.Op("C14", "S attribution "+strings.Join(names, ">"), att)
+		}
 		em.Count("bytecode-chain:" + strings.Join(names, ">"))
 		// bookkeeping closed
 		cur := "-"
